@@ -17,6 +17,10 @@ Decided statically (all for every member of the stated input classes / for all i
   R5  contexts longer than 255 bytes are rejected (see C07; re-checked here for verify roots).
   R6  UseHint (both gamma2, h = 0 and 1), Decompose / HighBits / LowBits and mod+- equal their FIPS
       definitions on their whole domain (engine of C15): w1' is the FIPS w1' for every w'_approx, h.
+  R7  the ring arithmetic of Alg. 8, symbolically: NTT applied to exactly the decoded z and to the
+      challenge; w'_approx = NTT^-1(A-hat o NTT(z) - c-hat o (t1*2^d)) with the precompute's
+      Montgomery factor cancelling; UseHint applied to its coefficients.  With C18 F and C11 D6
+      every step of Verify_internal is accounted for.
 Acceptance side (valid signatures are accepted) depends on hash values: only C01's clauses.
 """
 import os
@@ -69,6 +73,7 @@ def main(tier):
             rep.violation(key, detail)
 
     samples, n_classes = analyse(rep, ob, aicheck.sets_for(tier))
+    ring_arithmetic(rep, ob, aicheck.sets_for(tier) if tier != "quick" else ["44", "65"], samples)
     # R6: the scalar kernels of the decision equal their FIPS definitions on the whole domain
     ksamples, kstats = c15.analyse(rep, ob, tier, {"use_hint", "decompose", "center_mod"}, prefix="R6:")
     cov = {
@@ -79,6 +84,70 @@ def main(tier):
         "explanation": "rejection side: each class (an arbitrary signature with a few pinned bytes) is decided for all its members; acceptance of valid signatures is not decidable without hash values",
     }
     return rep.finish("other", cov, ["acceptance side not decided", "class family covers the taxonomy, not all byte strings"])
+
+
+def ring_arithmetic(rep, ob, sets, samples):
+    """R7: one symbolic run of verify: matrix entries, the decoded z, the challenge, the public key's precompute and the
+    outputs of the transforms are named symbols; products of two symbols are interned product symbols; modulo q."""
+    Q = 8380417
+    RINV = pow(pow(2, 32, Q), Q - 2, Q)
+    jobs = {}
+    for s in sets:
+        n = roots.names(s)
+        jobs[s] = [("%s:ring" % s, n["verify"], {"pk": "from_bytes", "len.ctx": "0..255", "modulus": str(Q), "lin.cap": "600", "atoms.key": "1",
+                                                  "atomize": "hashing::rej_ntt_poly|encodings::sig_decode|hashing::sample_in_ball|ntt::ntt|ntt::inv_ntt",
+                                                  "dump_args": "ntt::ntt|ntt::inv_ntt|high_low::use_hint"})]
+    res, errs = aicheck.run_sets(jobs, timeout=6000)
+
+    def parse(p):
+        out = []
+        for line in p["data"]["forms"].split("\n"):
+            if line == "":
+                continue
+            if line == "-":
+                out.append(None)
+                continue
+            m, d, terms = line.split("|", 2)
+            out.append((int(m), int(d), {t.rsplit(":", 1)[0]: int(t.rsplit(":", 1)[1]) for t in terms.split(",") if t}))
+        return out
+    for s in sets:
+        P = aicheck.PARAMS[s]
+        k, l = P["k"], P["l"]
+        r = res.get(s)
+        if r is None or r["jobs"][0].get("error"):
+            vlib.fail_closed(rep, "driver-ring:%s" % s, (errs.get(s) or str(r and r["jobs"][0].get("error")))[-400:])
+            continue
+        pr = [p for p in r["jobs"][0]["probes"] if p["what"] == "arg_forms"]
+        nt = [p for p in pr if p["inst"].startswith("ntt::ntt::<")]
+        iv = [p for p in pr if p["inst"].startswith("ntt::inv_ntt::<")]
+        inv_ = lambda p: "verify_internal" in p["data"].get("path", "")
+        nt_v = [(i, p) for i, p in enumerate(nt) if inv_(p)]
+        iv_v = [(i, p) for i, p in enumerate(iv) if inv_(p)]
+        uh = [parse(p) for p in pr if p["inst"].startswith("high_low::use_hint") and inv_(p)]
+        ok = len(nt_v) == 2 and len(iv_v) == 1 and len(uh) >= 8
+        okz = okw = oku = False
+        detail = {"ntt_calls": len(nt_v), "inv_ntt_calls": len(iv_v), "use_hint_calls_sampled": len(uh)}
+        if ok:
+            (oz, pz), (oc, pc) = nt_v
+            fz, fc = parse(pz), parse(pc)
+            zb = sorted({nm.split("[")[0] for f in fz if f for nm in f[2]})
+            cb = sorted({nm.split("[")[0] for f in fc if f for nm in f[2]})
+            okz = len(fz) == 256 * l and len(zb) == 1 and zb[0].startswith("sig_decode#") and all(f == (0, 0, {"%s[%d]" % (zb[0], i): 1}) for i, f in enumerate(fz)) \
+                and len(fc) == 256 and len(cb) == 1 and cb[0].startswith("sample_in_ball#") and all(f == (0, 0, {"%s[%d]" % (cb[0], i): 1}) for i, f in enumerate(fc))
+            o0, p0 = iv_v[0]
+            f0 = parse(p0)
+            def want(i):
+                d = {"(rej_ntt_poly#%d[%d]*ntt#%d[%d])" % ((i // 256) * l + j, i % 256, oz, j * 256 + i % 256): 1 for j in range(l)}
+                d["(ntt#%d[%d]*pk.t1_d2_hat_mont[%d])" % (oc, i % 256, i)] = Q - RINV
+                return (Q, 0, d)
+            okw = len(f0) == 256 * k and all(f == want(i) for i, f in enumerate(f0))
+            oku = all(len(f) == 3 and f[0] == (0, P["gamma2"], {}) and f[2] == (0, 0, {"inv_ntt#%d[%d]" % (o0, i): 1}) for i, f in enumerate(uh))
+            detail.update({"w_approx_arg_first": p0["data"]["forms"].split("\n")[0][:260], "use_hint_first": uh[:1]})
+        ob(ok, "R7:verify-analysed", {"rule": "fail-closed: the symbolic run reached the transforms of verify_internal", "set": s, **detail})
+        ob(okz, "R7:transform-inputs", {"rule": "R7 the NTT is applied to exactly the decoded z, and to the SampleInBall output", "set": s, **detail})
+        ob(okw, "R7:w-approx", {"rule": "R7 w'_approx = NTT^-1( sum_j A-hat[i][j] o NTT(z)[j] - c-hat o (t1 * 2^d precompute) * 2^-32 ), unit / -2^-32 coefficients modulo q", "set": s, **detail})
+        ob(oku, "R7:use-hint-argument", {"rule": "R7 UseHint is applied to the coefficients of w'_approx (first coefficients; the closure is index-uniform)", "set": s, **detail})
+        samples.append({"set": s, "R7": detail})
 
 
 def analyse(rep, ob, sets, rules=("R1", "R2", "R3", "R4", "R5"), prefix=""):
